@@ -84,7 +84,7 @@ class Cursor:
         return 0
 
 
-def align(text, tokens, bad_positions, count_mode=False):
+def align(text, tokens, bad_positions, count_mode=False, want=None):
     """Walk raw text and tokens together (with backtracking over the one ambiguity: a raw
     backslash-newline may be a splice or, inside a literal, two characters of the token).
 
@@ -150,6 +150,11 @@ def align(text, tokens, bad_positions, count_mode=False):
                 else:
                     fail(f"token {ti} {tokens[ti].type}: char {c!r} of {tt!r} does not match raw "
                          f"{text[cur.i:cur.i + 3]!r} at {pos}", tchar=k)
+                failed = True
+            if (not failed and want is not None and first and choice in ("literal", "tab")
+                    and tuple(want[ti]) != pos):
+                fail(f"token {ti} {tokens[ti].type} reported at {tuple(want[ti])}, this alignment puts it at {pos}",
+                     tchar=k, posfail=True)
                 failed = True
             if not failed:
                 ti, k, first, failed = _step(choice, cur, text, tokens, texts, ti, k, first, expected, spans,
